@@ -476,7 +476,9 @@ pub fn check(c: &Case) -> Outcome {
         let ymax = ym.iter().cloned().fold(0.0, f64::max);
         let nacc = s.naccpt.max(1) as f64;
         nacc_last = s.naccpt;
-        let floor = 64.0 * f64::EPSILON * (prob.mag + ymax) * nacc.sqrt() + 8.0 * ulp(sp.x0.abs().max(sp.xend.abs())) * prob.rate_t() * ymax;
+        // (every step end is only known to an ulp of the time: on a fast time scale far from t = 0 each step may shift the
+        // state by rate*|y|*ulp(t), and the shifts can add up)
+        let floor = 64.0 * f64::EPSILON * (prob.mag + ymax) * nacc.sqrt() + 8.0 * ulp(sp.x0.abs().max(sp.xend.abs())) * prob.rate_t() * ymax * nacc;
         // RADAU5 integrates with internally transformed tolerances rtol' = 0.1 rtol^(2/3),
         // atol' = rtol' * atol/rtol (documented in the solver; identical in the Fortran original):
         // when the absolute part dominates and rtol is tiny, the absolute tolerance actually used
@@ -586,7 +588,8 @@ pub fn strategy() -> BoxedStrategy<Case> {
     let body = |spec: BoxedStrategy<ProbSpec>, mode: TolMode| {
         (
             spec,
-            span_mid(),
+            // a quarter of the cases on other time scales (spans 1e-6..1e4): |y'|/|y| from 1e-4 to 1e7
+            prop_oneof![3 => span_mid().boxed(), 1 => span_wide(-6.0, 4.0).boxed()],
             meth.clone(),
             fr(3.0, 7.0),
             proptest::option::weighted(0.3, proptest::collection::vec(fr(-1.5, 0.0), 8..=8)),
@@ -642,12 +645,12 @@ pub fn run(ctx: &Ctx, known: &[Known]) -> Report {
     let stats = run_generated(ctx, "C01", "gen", &strategy, &check, cases, known);
     Report {
         id: "C01".into(),
-        rule: "cases = closed-form problems (stacked linear / logistic / Riccati / Bernoulli / planar blocks, n<=8, composed with a monotone time-warp and a well-conditioned linear mixing, a third of them in units of 2^-40..2^40 (state and absolute tolerances scaled together)) x spans (both directions) x six methods; error-controlled methods run a tolerance ladder rtol, rtol/100, rtol/10^4 starting at 1e-3..1e-7 (RK23 1e-3..1e-5), atol scalar or per component, rtol scalar or per component, also pure absolute (rtol = 0), absolute-dominated (rtol = 1e-11, atol spread over 6 decades, optionally an identically-zero first/last component carrying a loose atol = 1e-2) and pure relative (atol = 0, positive solutions) control, with or without t_eval; 1/13 of the cases use randomly generated smooth dissipative vector fields y' = -Dy + B tanh(Wy+c) + s sin(wt+psi) (n<=6, contractive) checked against the harness's own Richardson-extrapolated RK4 reference integrator; RK4 runs 25..200 steps (half of the time with a step that does not divide the span, so the last step is clipped) and two halvings. Oracle: every sample against the exact solution, bound 100*kappa*naccpt*tolscale + rounding floor at every rung; per-component bound for decoupled problems; (rungs where the error grew more than 10x after tightening are counted in the evidence, not asserted); RK4 observed order >= 3.2 (minimum seen over 3e4 RK4 cases: 3.57) when the step resolves the fastest rate (h*rate <= 0.2). Non-trivial = Success, at least 3 accepted steps, some sample error above the rounding floor (RK4: at least one usable order estimate). Distinct = distinct canonical JSON.".into(),
+        rule: "cases = closed-form problems (stacked linear / logistic / Riccati / Bernoulli / planar blocks, n<=8, composed with a monotone time-warp and a well-conditioned linear mixing, a third of them in units of 2^-40..2^40 (state and absolute tolerances scaled together)) x spans (both directions; a quarter of them 1e-6..1e4 long, i.e. fast and slow time scales) x six methods; error-controlled methods run a tolerance ladder rtol, rtol/100, rtol/10^4 starting at 1e-3..1e-7 (RK23 1e-3..1e-5), atol scalar or per component, rtol scalar or per component, also pure absolute (rtol = 0), absolute-dominated (rtol = 1e-11, atol spread over 6 decades, optionally an identically-zero first/last component carrying a loose atol = 1e-2) and pure relative (atol = 0, positive solutions) control, with or without t_eval; 1/13 of the cases use randomly generated smooth dissipative vector fields y' = -Dy + B tanh(Wy+c) + s sin(wt+psi) (n<=6, contractive) checked against the harness's own Richardson-extrapolated RK4 reference integrator; RK4 runs 25..200 steps (half of the time with a step that does not divide the span, so the last step is clipped) and two halvings. Oracle: every sample against the exact solution, bound 100*kappa*naccpt*tolscale + rounding floor at every rung; per-component bound for decoupled problems; (rungs where the error grew more than 10x after tightening are counted in the evidence, not asserted); RK4 observed order >= 3.2 (minimum seen over 3e4 RK4 cases: 3.57) when the step resolves the fastest rate (h*rate <= 0.2). Non-trivial = Success, at least 3 accepted steps, some sample error above the rounding floor (RK4: at least one usable order estimate). Distinct = distinct canonical JSON.".into(),
         assumptions: vec![
             "kappa = cond(S) * max block amplification bound (a priori, from the closed forms)".into(),
             "a non-Success status is not a C01 violation (C03/C14 own it); it makes the case trivial".into(),
             "Radau in the absolute-dominated mode: the bound uses RADAU5's documented internal tolerance atol*0.1*rtol^(-1/3)".into(),
-            "rounding floor = 64 eps (1+|y|) sqrt(steps) + 8 ulp(t) * rate * |y|".into(),
+            "rounding floor = 64 eps (unit+|y|) sqrt(steps) + 8 ulp(t) * rate * |y| * steps".into(),
         ],
         min_nontrivial_frac: 0.5,
         stats,
